@@ -230,3 +230,34 @@ theorem c01_sharp_sanity :
                      exts := [{ id := 1, payload := [1] }] }, payload := [9], paddingSize := 2 } = true := by decide +kernel
 
 end Rtp.Props.C01
+
+namespace Rtp.Props.C01
+open Rtp Rtp.Model Rtp.Pred.C01
+
+/-- kind `c01.reuse`: after decoding Marshal(p) into ANY receiver, the element list and the CSRC
+    list are exactly p's — nothing of what the receiver decoded before survives, also while the X
+    flag is clear (corollary of the round trip; canonH only touches the profile). -/
+theorem c01_reuse_lengths (p : Packet) (hwf : wfP p = true) (r : Packet) :
+    ∃ bs, pktMarshal p = .ok bs ∧
+      (pktUnmarshal r bs).map (fun q => (q.header.exts.length, q.header.csrc.length)) =
+        .ok ((if p.header.extension then p.header.exts.length else 0), p.header.csrc.length) := by
+  obtain ⟨bs, q, hm, _, hq, hcan, _, _, _⟩ := c01_packet_roundtrip_spec p hwf r
+  refine ⟨bs, hm, ?_⟩
+  have hx : (canonP q).header.exts = (canonP p).header.exts := by rw [hcan]
+  have hc : (canonP q).header.csrc = (canonP p).header.csrc := by rw [hcan]
+  simp only [canonP, canonH] at hx hc
+  have hq1 : q.header.exts = p.header.exts := by
+    split at hx <;> split at hx <;> simpa using hx
+  have hq2 : q.header.csrc = p.header.csrc := by
+    split at hc <;> split at hc <;> simpa using hc
+  rw [hq]
+  simp only [Res.map, hq1, hq2]
+  by_cases hX : p.header.extension = true
+  · simp [hX]
+  · have hw : extsLegal p.header = true := by
+      simp only [wfP, wfH, Bool.and_eq_true] at hwf
+      exact hwf.1.1.2
+    simp only [extsLegal, hX, Bool.not_false, if_true] at hw
+    simp [hX, List.isEmpty_iff.mp hw]
+
+end Rtp.Props.C01
